@@ -7,7 +7,15 @@ import re, sys
 
 def find_fn(text, header_re):
     """return the source text of the first fn whose header matches header_re (brace matching)"""
-    m = re.search(header_re, text)
+    base = 0
+    if isinstance(header_re, tuple):
+        # (scope anchor, header): the first match of header after the first match of the anchor
+        ms = re.search(header_re[0], text)
+        if not ms:
+            return None
+        base = ms.end()
+        header_re = header_re[1]
+    m = re.compile(header_re).search(text, base)
     if not m:
         return None
     i = m.start()
@@ -224,6 +232,57 @@ def rewrite_fp(src, log):
         s = s2
     s = re.sub(r'^(pub fn [^{]*?)\s*\{', r'\1\n{', s, count=1, flags=re.S)
     return s
+
+def rewrite_inv(src, log):
+    """U256::set_bit / div2 / is_one / is_even / invert: rewrite_fp plus
+    R9  `if u >= v` on U256 (Ord::cmp delegates to the BigInt comparison) -> `u.0.ge_(&v.0)`;  `X == B256::one()` -> `X.eq_(&B256::one())`
+    R12 compound bit assignment `X |= E;` / `X &= E;` -> `X = X | (E);` / `X = X & (E);`"""
+    s = src
+    rules = [
+        ('R9', r'\bif ([a-z_]\w*) >= ([a-z_]\w*) \{', r'if \1.0.ge_(&\2.0) {'),
+        ('R9', r'\b([\w.]+) == B256::one\(\)', r'\1.eq_(&B256::one())'),
+        ('R12', r'^(\s*)(\S+) \|= ([^;]*);', r'\1\2 = \2 | (\3);'),
+        ('R12', r'^(\s*)(?:\} else \{ )?(\S+) &= ([^;]*);', None),
+    ]
+    for name, pat, rep in rules:
+        if rep is None:
+            s2, n = re.subn(r'(\S+) &= ([^;]*);', r'\1 = \1 & (\2);', s)
+        else:
+            s2, n = re.subn(pat, rep, s, flags=re.M)
+        if n:
+            log.append((name, n))
+        s = s2
+    return rewrite_fp(s, log)
+
+def rewrite_divrem(src, log):
+    """U512::divrem / bit_length: rewrite_fp plus
+    R1r  `for i in (0..N).rev() { BODY }` -> `let mut i_ = N; while i_ > 0 { i_ = i_ - 1; let i = i_; BODY }`
+    R9   `&r >= modulo` -> `r.0.ge_(&modulo.0)`;  `q.as_ref().unwrap() >= modulo` -> `q.unwrap().0.ge_(&modulo.0)` (U256 is Copy)
+    R14  `if q.is_some() && !q.as_mut().unwrap().set_bit(i, true) { q = None; }` -> take / modify / put back (U256 is Copy)
+    R15  debug_assert! blocks (`if true|false { if !(..) { panic(..) }; };`) are DROPPED: not verified (debug builds only)"""
+    s = src
+    s2, n = re.subn(r'for (\w+) in \(0\.\.(\w+)\)\.rev\(\) \{', r'let mut \1_ = \2;\nwhile \1_ > 0 {\n\1_ = \1_ - 1;\nlet \1 = \1_;', s)
+    if n:
+        log.append(('R1r', n))
+    s = s2
+    s2, n = re.subn(r'if (\w+)\.is_some\(\) && !\1\.as_mut\(\)\.unwrap\(\)\.set_bit\((\w+), true\) \{\s*\1 = None;\s*\}',
+                    r'if \1.is_some() {\nlet mut t_ = \1.unwrap();\nlet ok_ = t_.set_bit(\2, true);\n\1 = Some(t_);\nif !ok_ {\n\1 = None;\n}\n}', s)
+    if n:
+        log.append(('R14', n))
+    s = s2
+    s2, n = re.subn(r'if (?:true|false) \{\s*if !\((?:[^{}]|\n)*?\) \{\s*::core::panicking::panic\("assertion failed: [^"]*"\)\s*\};\s*\};', '', s)
+    if n:
+        log.append(('R15-dropped-debug_assert', n))
+    s = s2
+    s2, n = re.subn(r'&(\w+) >= (\w+)\b', r'\1.0.ge_(&\2.0)', s)
+    if n:
+        log.append(('R9', n))
+    s = s2
+    s2, n = re.subn(r'\((\w+)\.as_ref\(\)\.unwrap\(\) >= (\w+)\)', r'(\1.unwrap().0.ge_(&\2.0))', s)
+    if n:
+        log.append(('R9', n))
+    s = s2
+    return rewrite_fp(s, log)
 
 def rewrite_arith(src, log):
     s = src
